@@ -371,6 +371,15 @@ func (srv *Server) Shutdown(ctx context.Context) error {
 	}
 	vsched.Sync("Shutdown:wait-idle")
 	for len(srv.active) > 0 {
+		// a context that can expire makes the wait abandonable: time is not modelled, so
+		// whether the deadline passes while connections are still active is a recorded
+		// nondeterministic choice (context.Background() never expires: no choice)
+		if _, has := ctx.Deadline(); has || ctx.Done() != nil {
+			if vsched.Choose(2, "shutdown-context-expires") == 1 {
+				t.Note("Shutdown:deadline")
+				return context.DeadlineExceeded
+			}
+		}
 		srv.idleWaiters = append(srv.idleWaiters, t)
 		t.Block("active connections of " + srv.Addr)
 	}
